@@ -302,6 +302,11 @@ class Builtins(object):
         it.ctx.flags.add('finite_floats')
         return False
 
+    def x_math_isinf(self, it, args, kwargs):
+        s, k = _num_kind(it, args[0])
+        it.ctx.flags.add('finite_floats')
+        return False
+
     def x_math_factorial(self, it, args, kwargs):
         s, k = _num_kind(it, args[0])
         if k == FLOAT:
